@@ -1,9 +1,19 @@
-use super::RelationToQueryTranslator;
+use super::{function_builder, RelationToQueryTranslator};
+use sqlparser::ast;
 
 #[derive(Clone, Copy)]
 pub struct SQLiteTranslator;
 
-impl RelationToQueryTranslator for SQLiteTranslator {}
+impl RelationToQueryTranslator for SQLiteTranslator {
+    /// SQLite has no FIRST aggregate, a bare column in an aggregate query takes a value of the group
+    fn first(&self, expr: ast::Expr) -> ast::Expr {
+        expr
+    }
+
+    fn mean(&self, expr: ast::Expr) -> ast::Expr {
+        function_builder("AVG", vec![expr], false)
+    }
+}
 
 #[cfg(test)]
 mod tests {}
